@@ -36,7 +36,8 @@ def env_maps():
 
 def build_field_domains():
     # an explicitly empty list: no --buildpack at all (the builder's own order)
-    bps = [[]] + [[a] for a in TNE] + [[a, b] for a, b in itertools.product(TNE[:5], repeat=2)] + [[a, b, c] for a, b, c in itertools.product(TNE[:3], repeat=3)]
+    # references spelled like paths that exist below the crate root (and the default "some/bp", which does too)
+    bps = [[]] + [["fixture"], ["."], [".."], ["fixture/file.txt"], ["some/bp", "./fixture/sub"], ["some"]] + [[a] for a in TNE] + [[a, b] for a, b in itertools.product(TNE[:5], repeat=2)] + [[a, b, c] for a, b, c in itertools.product(TNE[:3], repeat=3)]
     return {"builder": TNE, "env": env_maps(), "buildpacks": bps, "app_dir": ["fixture", "ABS", "fixture/", "./fixture", "SYMLINK", "LINKDOTDOT", "LINKDOTDOT+PRE"], "preprocessor": [False, True]}
 
 
@@ -318,10 +319,10 @@ def run(ctx):
     res.cov("evaluations", len(cfgs) + len(pairs) + pk)
     res.cov("distinct_nontrivial", len(cfgs) - 2)
     res.cov("distinct_outcomes", len(shapes))
-    res.cov("rule", "configurations = each field varied over its full domain against defaults (builder over 9 strings; env maps of <=2 keys x 10 value strings incl. '', leading dashes, spaces, '=', Unicode, shell metacharacters, and keys that are also set (differently) in the test process's own environment (proxy variables, DOCKER_HOST, K); buildpack lists of length <=3; relative/absolute app dir; preprocessor; entrypoint None+10 strings; commands of <=2 elements; all port subsets of {80,8080,65535}; <=2 bind mounts over 4 synthetic paths plus existing sources: a directory, a symlink to it and a redundant spelling of it, up to 3 at once); build+rebuild pairs incl. every pair of preprocessor settings {none, A, B} with the app content pack saw judged per build and, in thorough, all pairs of fields over thinned domains; each run through the real TestRunner with stand-in CLIs; plus 5 sets of on-the-fly packaged references (current crate, workspace buildpacks, a composite, overlapping dependency closures) x both expectations in a really compiled generated workspace; the logged argv is decoded with reference parsers and compared with the configuration; non-trivial = non-default configurations")
+    res.cov("rule", "configurations = each field varied over its full domain against defaults (builder over 9 strings; env maps of <=2 keys x 10 value strings incl. '', leading dashes, spaces, '=', Unicode, shell metacharacters, and keys that are also set (differently) in the test process's own environment (proxy variables, DOCKER_HOST, K); buildpack lists of length <=3 plus references spelled like paths that exist below the crate root; relative/absolute app dir; preprocessor; entrypoint None+10 strings; commands of <=2 elements; all port subsets of {80,8080,65535}; <=2 bind mounts over 4 synthetic paths plus existing sources: a directory, a symlink to it and a redundant spelling of it, up to 3 at once); build+rebuild pairs incl. every pair of preprocessor settings {none, A, B} with the app content pack saw judged per build and, in thorough, all pairs of fields over thinned domains; each run through the real TestRunner with stand-in CLIs; plus 5 sets of on-the-fly packaged references (current crate, workspace buildpacks, a composite, overlapping dependency closures) x both expectations in a really compiled generated workspace; the logged argv is decoded with reference parsers and compared with the configuration; non-trivial = non-default configurations")
     res.cov("exhaustive", True)
-    res.sample({"build": cfgs[3][0], "container": cfgs[3][1]})
-    res.sample({"build": cfgs[len(cfgs) // 2][0], "container": cfgs[len(cfgs) // 2][1]})
-    res.sample({"build": cfgs[-1][0], "container": cfgs[-1][1]})
+    for i in (3, len(cfgs) // 2, len(cfgs) - 1):
+        if 0 <= i < len(cfgs):
+            res.sample({"build": cfgs[i][0], "container": cfgs[i][1]})
     res.assume("'=' in env keys and ',' or '\"' in mount paths are outside the alphabet (docker's own CSV/env syntax); empty buildpack references and empty builder names are not enumerated")
     return res.done()
